@@ -56,9 +56,8 @@ def race_fn(blk):
     return name[:-2] if name.endswith("()") else name
 
 
-def family_codec(c, thorough):
+def family_codec(c, thorough, gen):
     rng = c.rng
-    gen = mc_codec(c, 1, shards=3, liveness=False)
     drv = c.build_driver("codec", race=True)
     pool = [g for g in gen if TBL[g["m"]]["family"] != "ENV"]
     cases = [dict(k="dec", entry="plain", inp=g["inp"]) for g in rng.sample(pool, min(len(pool), 350 if not thorough else 1500))]
@@ -142,7 +141,8 @@ def prepare_pools(c, fams):
         futs = [ex.submit(one, f) for f in fams]
         dfuts = []
         built = {}
-        for f in fams:                               # f06 and f07 share cmd/sec
+        for f in fams:                               # f06 and f07 share cmd/sec; fmsg has no family driver
+            if f.driver is None: continue
             if f.driver not in built:
                 built[f.driver] = ex.submit(drv, f)
             dfuts.append((f, built[f.driver]))
@@ -184,6 +184,7 @@ def drift_guard(c, drv, fams, pools, plans, d):
     are in step with the family drivers iff a sequential run of the copies writes, event by event, what the family
     driver's own replay writes for the same case file."""
     def one(f):
+        if f.driver is None: return None
         cp, cases, _ = write_cases(d, f, plans[f.name])
         ref = os.path.join(d, "ref-%s.ndjson" % f.name)
         c.run_driver(pools[f.name]["driver"], ["replay", cp, ref], timeout=900)
@@ -322,7 +323,7 @@ def family_others(c, thorough, fams, pools, drv):
                 c.note("LEFT OUT (VERIF_C19_SKIP_DRIFTED): " + m)
                 fams = [f for f in fams if f.name != m.split(":")[0]]
             pending = fresh()
-            c.cov["drift_guard"] = "family driver replay == sequential run of the concurrent driver's copies, event by event: %s" % ", ".join(f.name for f in fams)
+            c.cov["drift_guard"] = "family driver replay == sequential run of the concurrent driver's copies, event by event: %s" % ", ".join(f.name for f in fams if f.driver)
         t0 = time.time()
         traces, lib, man, paths = run_conc(c, drv, fams, plans, n, procs, rounds, tag)
         clock["run"] += time.time() - t0
@@ -384,7 +385,7 @@ def ie_included(c):
 def run(c):
     thorough = c.tier == "thorough"
     sd = c.spec_dir("mc19")
-    c.stage_a(sd, "MC_C19", "MC_C19")
+    c.stage_a(sd, "MC_C19", "MC_C19", coverage=True)
     res = c.tlc(sd, "MC_C19", "MC_C19_broken", workers=2)
     if res.violated != "ResultsSequential":
         raise Infra("the broken library variant was not rejected by the model: the property would be vacuous")
@@ -405,8 +406,12 @@ def run(c):
     conc = c.build_driver("conc", race=True, tags="verif,c19ie" if with_ie else "verif", overlay=c._c19_overlay)
     with ThreadPoolExecutor(max_workers=1) as ex:
         fut = ex.submit(prepare_pools, c, fams)         # the families' generators work while the codec family runs
-        total = family_codec(c, thorough)
+        gen = mc_codec(c, 1, shards=3, liveness=False)
+        total = family_codec(c, thorough, gen)
         pools = fut.result()
+    # shared decoded messages: the codec generator's valid inputs
+    pools["fmsg"]["pool"] = [g for g in gen if g["g"] and g["ok"] and TBL[g["m"]]["family"] != "ENV"]
+    del gen
     for f in fams:
         c.cov["states"] += pools[f.name]["states"]; c.cov["transitions"] += pools[f.name]["transitions"]
     total_codec = total
